@@ -77,6 +77,14 @@ PROPS = {
     "C16": dict(runs=[oph("^Harness_C16_"), opc("^Harness_C16_")],
                 bounds=["states constructed through the keepers' own setters on an empty chain: L1: 0..1 (quick) / 0..2 (thorough) bridges with consecutive ids, each with 1..m batch infos, 0..m token pairs, outputs, claims; L2: 0..2 validators with powers, both sequences, bridge info present/absent, 0..m denom pairs", "all contents symbolic"],
                 outside=["larger states", "JSON canonical form / byte-level encoding of the genesis file"], assumptions=COMMON_ASSUME),
+    "C18": dict(runs=[oph("^Harness_C18_L1_"), opc("^Harness_C18_L2_"),
+                      dict(pkg="./x/opchild,./x/opchild/keeper", overlays=[("./x/opchild", "harness/opchild_abci"), ("./x/opchild/keeper", "harness/opchild")],
+                           harness="^Harness_C18_L2_(End|Begin)Blocker$", pkgname="opchild", native=["rt.go.tmpl", "opchild_keeper.go.tmpl"], native_pkg="./x/opchild/keeper", native_pkgname="keeper",
+                           runner="keeper.VerifRtRun", runner_import='"github.com/initia-labs/OPinit/x/opchild/keeper"')],
+                level_text="Bounded symbolic model checking of the real Go code by self-composition: every message handler, block hook and genesis function is executed twice from the same symbolic pre-state with independent copies of the runtime-oracle symbols (iteration order of every Go map range, time.Now); z3 must show every observable (panic, error, response, ordered events, ordered validator updates, every store cell and bank ledger) equal for all inputs and all pairs of oracle choices within the bounds.",
+                bounds=["one step (any of the 12 L1 / 8 L2 messages, EndBlocker with or without a plan, BeginBlocker, Export/InitGenesis) from an arbitrary symbolic pre-state, executed twice", "Go maps of up to 3 entries: every pair of iteration orders", "validator stores 2 (quick) / 3 (thorough) entries; L1 iterated stores 1 / 2 entries; genesis shapes as in C16"],
+                outside=["byte-level store encoding (codecs are assumed deterministic)", "goroutines / select (none on the explored paths; meeting one is reported INCONCLUSIVE)", "the oracle-update message (decoded by connect's codecs; C15 covers its gating)", "dependence on prior process history other than through the listed oracles"],
+                assumptions=COMMON_ASSUME + ["other modules reached through keepers/routers/hooks are deterministic: the same call sequence gets the same answers in both executions"]),
     "C17": dict(runs=[dict(pkg="./x/ophost/types", overlay="harness/C17", pkgname="types", harness="^Harness_C17_", native=["rt.go.tmpl", "types_native.go.tmpl"])],
                 bounds=["proof depth 0..2 (quick) / 0..4 (thorough)", "three memory layouts of the proof list", "all 64-bit field values, opaque strings of any length"],
                 outside=["proofs deeper than 4"], assumptions=["sha3 is an uninterpreted function: equality of digests is decided by equality of preimage bytes", "address.Module is an uninterpreted injective function"]),
